@@ -196,6 +196,22 @@ def gen_c03(g, budget, optional=False):
                     o2["as"] = "?y"
                 second = bqlgen.clause(bqlgen.S(b=g.rng.choice(["?a", "?b"])), bqlgen.P(b="?r"), o2)
             cls = [first, second]
+        elif r < 0.31 and not optional:
+            # (i) a later clause whose component carries a binding AND an AS alias that earlier clauses bound separately:
+            #     only rows in which the two agree are solutions (the lookup can be specialised with one of them only);
+            # (ii) a later clause that adds no binding and matches several triples per row (a predicate written with open
+            #     bounds): the same assignment several times - with outer aliases that exchange names on top
+            content = sorted(set(g.content(4, 8)) | {1, 2, 3, 4, 5, 19, 20, 22, 13, 14})
+            first = bqlgen.clause(bqlgen.S(b="?a"), bqlgen.P(c=g.rng.choice([1, 1, 4])) if g.rng.random() < 0.7 else bqlgen.P(b="?p"), bqlgen.O(b="?b"))
+            if g.rng.random() < 0.5:
+                pos = g.rng.choice(["s", "s", "o"])
+                if pos == "s":
+                    second = bqlgen.clause(bqlgen.S(b="?a", as_="?b"), bqlgen.P(b="?q"), bqlgen.O(b="?c"))
+                else:
+                    second = bqlgen.clause(bqlgen.S(b="?c"), bqlgen.P(b="?q"), bqlgen.O(b="?a", as_="?b"))
+            else:
+                second = bqlgen.clause(bqlgen.S(b="?a"), bqlgen.P(pid=g.rng.choice([bqlu.sid("p"), bqlu.sid("q")]), bd=True), bqlgen.O(b="?b"))
+            cls = [first, second]
         elif r < 0.4:
             cls = [mk(p_alias=0.3)]
         elif r < 0.8:
@@ -771,7 +787,8 @@ def check_group(v, tier, d):
         keys = g.rng.sample(names, min(nk, len(names) - 1))
         rest = [x for x in names if x not in keys]
         aggs = []
-        for _a in range(g.rng.randint(1, 3)):
+        # (one time in seven: GROUP BY without any aggregate - one row per distinct combination of the keys)
+        for _a in range(0 if g.rng.random() < 0.15 else g.rng.randint(1, 3)):
             op = g.rng.choice(["count", "count", "countd", "sum"])
             aggs.append((op, g.rng.choice(rest)))
         # base query projects keys + aggregated inputs (deduplicated), grouped query in output order
